@@ -296,6 +296,13 @@ pub fn adapt_case(r: &mut Rng, server_mode: bool, plan: u8, steps: usize) -> Str
     } else {
         Scn::new(r, n, server_mode, Default::default())
     };
+    // half of the nodes live at a public address (their datagrams appear to come from it and datagrams
+    // sent to it reach them): confirming it re-keys the node to a BEP42-valid id
+    if r.chance(1, 2) {
+        let ip = std::net::Ipv4Addr::new(*r.pick(&[23u8, 45, 80, 150, 203]), r.range(1, 250) as u8, r.range(1, 250) as u8, r.range(2, 250) as u8);
+        simclock::map_public(s.node.addr.port(), ip);
+        s.node.addr = SocketAddrV4::new(ip, s.node.addr.port());
+    }
     let own = s.node.addr;
     // extra sockets standing for "the outside of a NAT": they swallow whatever reaches them
     let nat: Vec<Peer> = (0..2).map(|i| Peer::new(peer_id(200 + i, r))).collect();
